@@ -179,6 +179,27 @@ class LoopCheck(Check):
                 raise core.HarnessError(f"translator validation failed for output {k}: symbolic {g!r} vs NumPy {c!r}")
         ctx.stats.validated += 1
 
+    # -- two fresh runs on ONE sampler object (state left over from the first) ----
+    def flow_twice(self, ctx, cfg, fns, tmp):
+        env = self.new_env(ctx, cfg, fns)
+        env.run()
+        if env.stopped:
+            raise core.PathCut()
+        loop_checks.check_run(ctx, env, self.props)
+        first_kernel_calls = len(env.kernel_inputs)
+        # second, fresh run on the same object: new draws (the flow stub numbers
+        # its draws), same generator object continuing its stream
+        env.kernel_inputs = []
+        env.max_iter = env.max_iter  # per-run bound
+        env.target.n_points_before = env.target.n_points
+        n0 = env.sampler.n_likelihood_evaluations
+        env.run()
+        if env.stopped:
+            raise core.PathCut()
+        loop_checks.check_run(ctx, env, self.props - {"C17"}, label_suffix="@second_run")
+        if "C17" in self.props:
+            ctx.prove(env.sampler.n_likelihood_evaluations == env.target.n_points, "c17/count@second_run")
+
     # -- resume (C11; the per-run clauses again on every resumed run) ----------
     def flow_resume(self, ctx, cfg, fns, tmp):
         P = self.props
@@ -199,6 +220,8 @@ class LoopCheck(Check):
                     continue
                 if route == "bytes":
                     src = ck["bytes"]
+                elif route == "dict_twice":
+                    src = pickle.loads(ck["bytes"])
                 elif route == "live_dict":
                     # the very dictionary the callback was handed, as a user who
                     # keeps checkpoints in memory would hold it -- after the run
@@ -208,7 +231,16 @@ class LoopCheck(Check):
                     src = pickle.loads(ck["bytes"])
                 res = self.new_env(ctx, cfg, fns, tag=f"r{k}", rng=SymRng(ctx, "other", 77))
                 res.kernel_offset = ck["n_acc"]
+                # the n_samples argument is required by the signature but must be
+                # irrelevant on resume (the checkpointed population is used)
+                res.N_arg = res.N + int(cfg.get("resume_n_samples_delta", 0))
                 res.run(resume_from=src, checkpoint="callback", checkpoint_every=1)
+                if route == "dict_twice":
+                    # the same dictionary once more (a second interruption): resuming
+                    # must not have consumed or altered it
+                    res = self.new_env(ctx, cfg, fns, tag=f"s{k}", rng=SymRng(ctx, "other", 78))
+                    res.kernel_offset = ck["n_acc"]
+                    res.run(resume_from=src, checkpoint="callback", checkpoint_every=1)
                 d = {"checkpoint": k, "iteration": ck["iteration"], "route": route}
                 if "C11" in P:
                     loop_checks.compare_runs(ctx, ref, res, "c11/resume", detail=d)
